@@ -24,11 +24,15 @@ deriving Repr, DecidableEq, Inhabited
 
 deriving instance DecidableEq for Except
 
+/-- exception classes that derive from `BaseException` but not from `Exception`: `except Exception` lets them through
+(a task cancelled while it awaits is the one that matters for the translated coroutines) -/
+def baseOnly : List String := ["CancelledError", "KeyboardInterrupt", "SystemExit", "GeneratorExit"]
+
 /-- does `except <classes>:` catch this?  (`[]` = `except Exception`; running out of fuel or leaving the modelled fragment is
 not a Python exception and is never caught) -/
 def PyErr.caughtBy (e : PyErr) (classes : List String) : Bool :=
   match e with
-  | .raised c => classes.isEmpty || classes.contains c
+  | .raised c => (classes.isEmpty && !baseOnly.contains c) || classes.contains c
   | _ => false
 
 /-- loop control value produced by one iteration of a translated loop body -/
@@ -67,7 +71,8 @@ variable {σ α β : Type}
 @[inline] def tryCatch (m : PyM σ α) (classes : List String) (h : PyM σ α) : PyM σ α := fun s =>
   match m s with
   | (.ok a, s') => (.ok a, s')
-  | (.error (.raised c), s') => if classes.isEmpty || classes.contains c then h s' else (.error (.raised c), s')
+  | (.error (.raised c), s') =>
+    if (classes.isEmpty && !baseOnly.contains c) || classes.contains c then h s' else (.error (.raised c), s')
   | (.error e, s') => (.error e, s')
 
 /-- run `m`, turning a raised exception into a value (the object's state after the raise is kept) -/
@@ -193,6 +198,12 @@ def bytesContains1 (needle buf : List UInt8) : Bool :=
 /-- `bytearray.pop(i)`: the array without element `i` -/
 def popAt (bs : List UInt8) (i : Nat) : Except PyErr (List UInt8) :=
   if i < bs.length then .ok (bs.eraseIdx i) else .error (.raised "IndexError")
+
+/-- `xs[i]` on a list / tuple with a constant non-negative index -/
+def listAt (xs : List α) (i : Nat) : Except PyErr α :=
+  match xs[i]? with
+  | some x => .ok x
+  | none => .error (.raised "IndexError")
 
 /-! ### insertion-ordered dict with small keys -/
 
